@@ -588,3 +588,33 @@ Theorem c04_seek_window_next_entry_exists_refuted :
     /\ seek_window best_offset_next stride limit l from <> window_spec limit l from.
 Proof. exact seek_window_next_entry_exists. Qed.
 Print Assumptions c04_seek_window_next_entry_exists_refuted.
+
+(* ---------------------------------------------------------------- the compile input with the full-sidecar window in the window's place *)
+(* the index-free window is admissible for the compiler (a suffix of the projection of the thread up to the cut that is all of
+   it or holds `limit` messages): the argument of c08_window_path_agrees, for the window the full-sidecar read produces *)
+Theorem c04_seek_window_admissible :
+  forall (limit : nat) (l : Compile.log) (from : N),
+  incr l -> admissible_input mr_keep limit l from (window_spec limit l from).
+Proof. exact window_spec_admissible. Qed.
+Print Assumptions c04_seek_window_admissible.
+
+(* tail loop -> full-sidecar window over the seek index (the lookup of the code, any stride) -> replay: whatever the mr sidecar
+   and the full sidecar's tail hold outside K2m / K1-at-the-head, on a thread whose frames carry seq 0,1,2,.. (the intact full
+   sidecar IS that thread: its lines are read by offset), the loader followed by the compiler gives the replay's decision
+   and bundle — no hypothesis about the window is left.  (The message-id index that finds the anchor's line is not modelled.) *)
+Theorem c04_compile_transparent_seek_window :
+  forall (r : tail_count) (P : params) (texts : N -> N) (l : Compile.log) (a : N) (ks : list nat)
+         (mr full : cfile) (stride : N),
+  tail_count_sound r = true -> Compile.valid_log l = true -> wf_refs l = true ->
+  MrFaithful l mr full -> HeadFaithful l full ->
+  compile_fast r P texts ks mr full (full_sidecar_window best_offset stride (p_limit P) l a) l a = compile P texts l a.
+Proof. exact compile_input_transparent_seek_window. Qed.
+Print Assumptions c04_compile_transparent_seek_window.
+
+(* with the off-by-one lookup the loader's window for the anchor at seq 6 is Some (no events): the caller returns it *)
+Theorem c04_full_sidecar_window_next_entry_refuted :
+  option_map (fun w => seqs (fst w)) (full_sidecar_window best_offset_next 4 2 sw_thread 6) = Some []
+  /\ option_map (fun w => seqs (fst w)) (full_sidecar_window best_offset 4 2 sw_thread 6) = Some [5; 6]
+  /\ cut_point sw_thread 6 = Some 6.
+Proof. exact full_sidecar_window_next_entry_refuted. Qed.
+Print Assumptions c04_full_sidecar_window_next_entry_refuted.
